@@ -31,6 +31,10 @@ for _n in ("clienttxn", "clienttxnLive", "clienttxnA", "clienttxnB", "clienttxnL
 MC_DEPTH["MC_clienttxn"] = (9, 11)
 GEN_DEPTH["GEN_clienttxnA"] = (7, 8)
 GEN_DEPTH["GEN_clienttxnB"] = (6, 7)
+for _n in ("disp_serverudp", "disp_serverstream", "disp_client"):
+    MODULE_OF["MC_" + _n] = MODULE_OF["GEN_" + _n] = "Dispatch.tla"
+    MC_DEPTH["MC_" + _n] = None
+    GEN_DEPTH["GEN_" + _n] = None
 for _n in ("steps",):
     MODULE_OF["MC_" + _n] = MODULE_OF["GEN_" + _n] = "TurnServerSteps.tla"
     MC_DEPTH["MC_" + _n] = None
@@ -52,7 +56,7 @@ MC_DEPTH.update({"MC_auth": (5, 7), "MC_noauth": (3, 4), "MC_nonce": None})
 GEN_DEPTH.update({"GEN_auth": (4, 5), "GEN_noauth": (2, 3), "GEN_nonce": None})
 
 
-NO_SIM = {"GEN_bindreply", "GEN_steps", "GEN_clienttxnLA", "GEN_clienttxnLB", "GEN_clienttxnLC", "GEN_clienttxnLD", "GEN_clienttxnLE", "GEN_clienttxnB", "GEN_codec", "GEN_nonce", "GEN_noauth", "GEN_mtu", "GEN_mtu1200", "GEN_ltcred", "GEN_relaygenOne", "GEN_relaygenTop"}
+NO_SIM = {"GEN_bindreply", "GEN_disp_serverstream", "GEN_steps", "GEN_clienttxnLA", "GEN_clienttxnLB", "GEN_clienttxnLC", "GEN_clienttxnLD", "GEN_clienttxnLE", "GEN_clienttxnB", "GEN_codec", "GEN_nonce", "GEN_noauth", "GEN_mtu", "GEN_mtu1200", "GEN_ltcred", "GEN_relaygenOne", "GEN_relaygenTop"}
 
 
 def depth(table, name, t):
@@ -137,6 +141,15 @@ PROPS = {
     "C08": dict(title="channel bindings are a bijection inside 0x4000-0x7FFF", level="model_checking",
                 run=core_run(["MC_relay", "MC_relayB"], ["GEN_relayA", "GEN_relayB", "GEN_relayD"]),
                 assumptions=BASE_ASSUME),
+    "C09": dict(title="no input can crash, wedge or spin an endpoint", level="exploration",
+                run=core_run(["MC_disp_serverudp", "MC_disp_serverstream", "MC_disp_client", "MC_framer"],
+                             ["GEN_disp_serverudp", "GEN_disp_serverstream", "GEN_disp_client", "GEN_framer"]),
+                assumptions=["Dispatch.tla is a decision table over message SHAPES (36 for the datagram listener, 13 for the stream listener, 22 for the client's HandleInbound) in three endpoint states; "
+                             "TLC enumerates shape x state, the harness concretises each shape to bytes (free bytes from the seed) and compares the outcome class (answer + pinned code / relayed / silent / stream closed; handled, error)",
+                             "after every delivery a liveness probe: a Binding transaction from the same and from another party (server), the client's own Binding transaction (client); a real-time watchdog turns a spin or a stuck goroutine into a verdict",
+                             "every walk also delivers batches of seeded byte-level mutations of well-formed messages (150 per batch for datagrams and the client, 60 fresh connections for the stream listener) with the liveness oracle only",
+                             "the framer walk (Framer.tla) supplies the stream-progress half: a successful read consumes at least one byte for every frame shape including lengths 0xFFEC-0xFFFF",
+                             "absence of panics for ALL byte strings is sampled, not decided: a parser fault on a byte pattern that no shape distinguishes and no mutation hits is missed"]),
     "C10": dict(title="stream framing independent of segmentation, always progresses", level="model_checking",
                 run=core_run(["MC_framer", "MC_bindreply"], ["GEN_framer", "GEN_bindreply"]),
                 assumptions=["frame sizes use the intended arithmetic in unbounded integers (Framer.tla); the catalogue has 93 streams of 1-3 frames "
